@@ -357,6 +357,14 @@ Section SharedStep.
       destruct (live_track t st); [|out_crush].
       destruct (is_shared t st && negb (is_released t st)); [|out_crush].
       cbn [out_p]. apply PS_aset; [reflexivity|exact HP].
+    - (* OGShare *)
+      destruct (live_sig g st); [|out_crush].
+      destruct (negb (is_shared (sig_key g) st) && (g <? 1000)); [|out_crush].
+      cbn [out_p]. apply PS_aset; [reflexivity|exact HP].
+    - (* OGRelease *)
+      destruct (live_sig g st); [|out_crush].
+      destruct (is_shared (sig_key g) st && negb (is_released (sig_key g) st)); [|out_crush].
+      cbn [out_p]. apply PS_aset; [reflexivity|exact HP].
   Qed.
 
   Lemma sh_gc : forall fuel s s' l, gc prog fuel s = Ok s' -> shared s = l -> shared s' = l.
@@ -434,12 +442,23 @@ Qed.
 
 Lemma shared_trackable_lifetime_history : S_shared_trackable_lifetime_history.
 Proof.
-  intros p fuel st o st1 st2 t Hr Ha Hg.
+  intros p fuel st o st1 st2 t Hr Ha Hg Ht.
   assert (W1 : WF st1) by (eapply after_op_wf; [exact (reachable_wf p fuel st Hr)|exact Ha]).
   assert (P1 : PS st1) by (eapply after_op_p; [exact (shared_keys_distinct p fuel st Hr)|exact Ha]).
   split; [exact P1|]. split.
-  - exact (proj1 (shared_trackable_lifetime_partial p st1 st2 t W1 P1 Hg)).
-  - exact (shared_trackable_kept_while_owned p st1 st2 t Hg).
+  - exact (proj1 (shared_trackable_lifetime_partial p st1 st2 t W1 P1 Hg Ht)).
+  - apply (shared_trackable_kept_while_owned p st1 st2 t Hg). lia.
+Qed.
+
+(* the same for signal objects co-owned by functor copies *)
+Lemma shared_signal_lifetime_history : S_shared_signal_lifetime_history.
+Proof.
+  intros p fuel st o st1 st2 g Hr Ha Hg.
+  assert (W1 : WF st1) by (eapply after_op_wf; [exact (reachable_wf p fuel st Hr)|exact Ha]).
+  assert (P1 : PS st1) by (eapply after_op_p; [exact (shared_keys_distinct p fuel st Hr)|exact Ha]).
+  split.
+  - intros Hl Hl'. exact (proj1 (proj1 (shared_signal_lifetime p st1 st2 g W1 P1 Hg) Hl Hl')).
+  - exact (shared_signal_kept_while_owned p st1 st2 g Hg).
 Qed.
 
 (* after the collection at the end of an operation no orphan is left; this is true of the initial
@@ -457,15 +476,56 @@ Proof.
       apply (IH st2 st'); [|exact E]. exact (gc_result p _ _ st2 E2).
 Qed.
 
-Lemma no_orphan_at_rest : S_no_orphan_at_rest.
+(* S_no_orphan_at_rest as stated (for every t) is FALSE in the model with co-owned signal objects:
+   a key from 2000 on names a signal object, while the trackable with that number can be the
+   trackable base of the signal object g = t - 1000 >= 1000.  It holds for every t < 2000 (user
+   trackables are the t < 1000). *)
+Lemma no_orphan_at_rest_partial :
+  forall p fuel st t, reachable p fuel st -> t < 2000 ->
+    live_track t st <> None -> is_released t st = true -> 0 < owner_count p t st.
 Proof.
-  intros p fuel st t [ops E] Hl Hr.
+  intros p fuel st t [ops E] Ht2 Hl Hr.
   assert (Hfo : no_orphan p st) by (apply (run_top_no_orphan p fuel ops st0 st); [reflexivity|exact E]).
   unfold no_orphan in Hfo. unfold is_released in Hr.
   destruct (aget t (shared st)) as [[|]|] eqn:Ha; try discriminate Hr.
-  pose proof (find_orphan_none p _ _ Hfo t (aget_in _ _ _ Ha) Hl) as X. lia.
+  pose proof (find_orphan_none p _ _ Hfo t (aget_in _ _ _ Ha) (proj2 (key_live_track t st Ht2) Hl)) as X. lia.
+Qed.
+
+(* the statement quantified over every t is false at t = 2000 (the trackable base of signal object 1000
+   against the key of signal object 0): the counterexample is kept with the old statement spelled out *)
+Definition nox_prog : program := mkProg [] [] [] [].
+Definition nox_ops : list op :=
+  [OGNew 1000 (mkGK RV None true); OGNew 0 (mkGK RV None false); OGShare 0; OGRelease 0].
+Definition nox_st : state := match run_top nox_prog 0 nox_ops st0 with Ok s => s | Err _ => st0 end.
+
+Lemma no_orphan_at_rest_any_key_false :
+  ~ (forall p fuel st t, reachable p fuel st ->
+       live_track t st <> None -> is_released t st = true -> 0 < owner_count p t st).
+Proof.
+  intro H.
+  assert (R : reachable nox_prog 0 nox_st) by (exists nox_ops; vm_compute; reflexivity).
+  assert (A : 0 < owner_count nox_prog 2000 nox_st).
+  { apply (H nox_prog 0%nat nox_st 2000 R); [vm_compute; discriminate|vm_compute; reflexivity]. }
+  vm_compute in A. discriminate.
+Qed.
+
+Lemma no_orphan_at_rest : S_no_orphan_at_rest.
+Proof.
+  intros p fuel st t R Ht. apply (no_orphan_at_rest_partial p fuel st t R). lia.
+Qed.
+
+Lemma no_orphan_signal_at_rest : S_no_orphan_signal_at_rest.
+Proof.
+  intros p fuel st g [ops E] Hl Hr.
+  assert (Hfo : no_orphan p st) by (apply (run_top_no_orphan p fuel ops st0 st); [reflexivity|exact E]).
+  unfold no_orphan in Hfo. unfold is_released in Hr.
+  destruct (aget (sig_key g) (shared st)) as [[|]|] eqn:Ha; try discriminate Hr.
+  pose proof (find_orphan_none p _ _ Hfo _ (aget_in _ _ _ Ha) (proj2 (key_live_sig g st) Hl)) as X. lia.
 Qed.
 
 Print Assumptions shared_keys_distinct.
 Print Assumptions shared_trackable_lifetime_history.
 Print Assumptions no_orphan_at_rest.
+Print Assumptions no_orphan_at_rest_any_key_false.
+Print Assumptions shared_signal_lifetime_history.
+Print Assumptions no_orphan_signal_at_rest.
